@@ -308,6 +308,49 @@ Definition wud_runs (dv : deviations) (c : hcfg) (init : bool) (h : history) : l
 Definition spec_runs (wu : bool) (c : hcfg) (init : bool) (h : history) : list run :=
   once wu (run_machine (sp_machine c) (sp_init wu c init) h).
 
+(* ---------- task.wait_until(timeout=T): an overall timeout next to the state_hold timer ---------- *)
+(* trigger.py wait_until l.408-422: this_timeout := remaining overall timeout; the remaining state_hold replaces it
+   only if strictly smaller (state_trig_timeout); whichever is due ends the call.  decorator.py
+   WaitUntilDecoratorManager: an independent `once(now + T s)` time trigger; first dispatch wins.
+   State = (inner state, live); a {"trigger_type": "timeout"} result is the run (T, timeout_id). *)
+Definition timeout_id : N := 1000000%N.
+
+Section WithTimeout.
+  Context {St : Type} (m : machine St) (T : option Z).
+  Definition wt_is_tmo (s : St * bool) : bool :=            (* the overall timeout is what is due next *)
+    match T, m_due m (fst s) with
+    | Some tm, Some e => negb (e <? tm)
+    | Some _, None => true
+    | None, _ => false
+    end.
+  Definition wt_due (s : St * bool) : option Z :=
+    if snd s then
+      match T, m_due m (fst s) with
+      | Some tm, Some e => Some (if e <? tm then e else tm)
+      | Some tm, None => Some tm
+      | None, d => d
+      end
+    else None.
+  Definition wt_post (s : St * bool) (t : Z) : bool :=
+    if wt_is_tmo s then match T with Some tm => tm <=? t | None => false end else m_post m (fst s) t.
+  Definition wt_expire (s : St * bool) (x : Z) : (St * bool) * list run :=
+    if wt_is_tmo s then ((fst s, false), [(x, timeout_id)])
+    else let '(st', o) := m_expire m (fst s) x in ((st', false), o).
+  Definition wt_step (s : St * bool) (t : Z) (i : hin) : (St * bool) * list run :=
+    if snd s then let '(st', o) := m_step m (fst s) t i in ((st', true), o) else (s, []).
+  Definition with_timeout : machine (St * bool) :=
+    {| m_step := wt_step; m_due := wt_due; m_post := wt_post; m_expire := wt_expire |}.
+End WithTimeout.
+Definition lift_ini {St} (ini : St * list run) : (St * bool) * list run := ((fst ini, true), snd ini).
+
+Definition wul_runs_t (dv : deviations) (c : hcfg) (T : option Z) (init : bool) (h : history) : list run :=
+  once true (run_machine (with_timeout (lg_machine wu_too_soon_cmp c) T) (lift_ini (wul_init dv c init)) h).
+Definition wud_runs_t (dv : deviations) (c : hcfg) (T : option Z) (init : bool) (h : history) : list run :=
+  once true (run_machine (with_timeout (dm_machine dv c) T) (lift_ini (dm_init dv true c init)) h).
+(* Spec: "return that number of seconds after the first state trigger (unless ... a timeout occurs first)" *)
+Definition spec_runs_t (c : hcfg) (T : option Z) (init : bool) (h : history) : list run :=
+  once true (run_machine (with_timeout (sp_machine c) T) (lift_ini (sp_init true c init)) h).
+
 (* ---------- the quantifier's domain ---------- *)
 (* strictly increasing positive times *)
 Fixpoint sorted_from (t0 : Z) (h : history) : bool :=
@@ -328,6 +371,15 @@ Fixpoint no_ties_aux (ds prev : list Z) (h : history) : bool :=
   | (t, _) :: r => forallb (fun p => forallb (fun d => far (t - p - d)) ds) prev && no_ties_aux ds (t :: prev) r
   end.
 Definition no_ties (c : hcfg) (h : history) : bool := no_ties_aux (cfg_delays c) [0] h.
+
+(* with a timeout T: additionally no input within the epsilons of T, and T not within them of any p + S *)
+Definition no_ties_t (c : hcfg) (T : option Z) (h : history) : bool :=
+  no_ties c h &&
+  match T with
+  | None => true
+  | Some tm => forallb (fun x => far (fst x - tm)) h
+               && forallb (fun p => forallb (fun d => far (p + d - tm)) (opt_list (hold c))) (0 :: map fst h)
+  end.
 
 (* run-based form: no input arrives within the epsilons of a machine's pending expiry *)
 Definition near_due {St} (m : machine St) (st : St) (t : Z) : bool :=
